@@ -388,7 +388,7 @@ def frac_term(ctx):
     if not o_idx or not v_idx:
         return None
     brackets = []
-    for _ in range(rng.randint(1, 3)):
+    for _ in range(rng.choice([0, 1, 1, 2, 2, 3])):     # 0: a term with an orbital-energy numerator only
         up = tuple(rng.sample(o_idx, rng.randint(1, min(2, len(o_idx)))))
         lo = tuple(rng.sample(v_idx, rng.randint(1, min(2, len(v_idx)))))
         flip = rng.random() < 0.3
@@ -407,7 +407,7 @@ def build_frac(ctx, with_num=True):
     for o in rem + brackets:
         sy = sy * G.build_obj(o)
     if with_num:
-        mode = rng.choice(["bracket", "bracket_plus", "random", "none"])
+        mode = rng.choice(["bracket", "bracket_plus", "random", "none"]) if brackets else rng.choice(["random", "random", "none"])
         e = lambda i: NonSymmetricTensor("e", (G.sym_idx(i),))
         if mode in ("bracket", "bracket_plus"):
             b = rng.choice(brackets)
